@@ -419,7 +419,7 @@ def r26d(ctx, rule="R26d"):
     other = [(i, t) for i, t in finds if (i, t) not in slash and (i, t) not in path_api]
     # searches inside closures: allowed only as the fallback of the slash search (`rfind('/').or_else(|| ..)`)
     clos_other = []
-    for cb in fa.closures_of(b):
+    for cb in fa.closures_of(b.path):
         for i, t in cfg.calls(cb):
             if last(cfg.callee(t) or "") in ("rfind", "rsplit_once", "rsplit", "find") and \
                     not any((cfg.op_const(a) or {}).get("c") in ("'/'", '"/"') for a in t["a"]):
